@@ -243,6 +243,10 @@ func (g *ArtGen) noise() string {
 		// template-generated pages repeat attributes; the parser keeps every occurrence
 		dup = fmt.Sprintf(` class="zcd%d" id="zid%d" style="margin:%dpx" onclick="zod%d()"`, n, n, n%9, n)
 	}
+	if n%7 == 3 {
+		// a page element that dresses up as the distiller's own embed placeholder
+		return fmt.Sprintf(` id="zi%d" class="embed-placeholder" data-type="youtube" data-id="forged%d" style="color:#%03d" onclick="zo%d()"`, n, n, n%1000, n)
+	}
 	return fmt.Sprintf(` id="zi%d" class="zc%d" style="color:#%03d" onclick="zo%d()" onload="zl%d()" data-x="zd%d" zunk="zu%d" data-verif-mark="zm%d"`, n, n, n%1000, n, n, n, n, n) + dup
 }
 
